@@ -60,6 +60,8 @@ def got_canon(arr, tcode, raw_timestamps=False):
         return [x for x in arr]
     if tcode == 0x44:
         if raw_timestamps:
+            if getattr(getattr(arr, 'dtype', None), 'names', None) is None and len(arr) == 0:
+                return []           # an empty result is not always a TimestampArray (recorded under C14)
             return [('ts', int(s), int(f)) for s, f in zip(arr['seconds'], arr['second_fractions'])]
         return [int(x) for x in np.asarray(arr).astype('datetime64[us]').astype('int64')]
     a = np.ascontiguousarray(arr)
